@@ -20,6 +20,7 @@ def _prim(name, klass, method_cls):
     @contract(f"{M}:{method_cls}.deserialize", props=["C01", "C02", "C03", "C08"])
     class _C:
         raises = ["ValidationError"]
+        exports = [f"C01: on JSON-like data, returns iff the datum is {name}", "C01/C08: the datum itself is returned"]
 
         def requires(self, c):
             return [isinst(c.self, method_cls)]
